@@ -135,9 +135,13 @@ func (m *expirationMap[V]) cleanup(store store[V], policy *defaultPolicy[V], onE
 	for _, keys := range buckets {
 		for key, conflict := range verifRange(keys, verifRangeCleanup) {
 			verifYield(verifSiteTTLCleanupKey, key)
-			expr := store.Expiration(key)
-			// Sanity check. Verify that the store agrees that this key is expired.
-			if expr.After(now) {
+			// Remove the entry only if the expiration attached to it right now
+			// has passed. The key may have been rewritten with a later TTL or
+			// without one since it was filed in this bucket (even while this
+			// cleanup runs), so the check and the delete are one step under
+			// the shard lock.
+			value, expr, ok := store.DelExpired(key, conflict, now)
+			if !ok {
 				verifEvent(verifEvSweepSkipped, key, 0, 0)
 				continue
 			}
@@ -145,7 +149,6 @@ func (m *expirationMap[V]) cleanup(store store[V], policy *defaultPolicy[V], onE
 
 			cost := policy.Cost(key)
 			policy.Del(key)
-			_, value := store.Del(key, conflict)
 
 			if onEvict != nil {
 				onEvict(&Item[V]{Key: key,
